@@ -865,8 +865,12 @@ func (t *wordMatchTree) matches(cp *contentProvider, cost int, known map[matchTr
 		relStartOffset := offset + idx
 		relEndOffset := relStartOffset + len(t.word)
 
-		startBoundary := relStartOffset < len(data) && (relStartOffset == 0 || !characterClass(data[relStartOffset-1]))
-		endBoundary := relEndOffset > 0 && (relEndOffset == len(data) || !characterClass(data[relEndOffset]))
+		// \b holds where exactly one of the two neighbouring bytes is a word
+		// character (the text boundaries count as non-word), so it depends on
+		// the first and last byte of the word as well.
+		isWord := func(i int) bool { return i >= 0 && i < len(data) && characterClass(data[i]) }
+		startBoundary := isWord(relStartOffset-1) != isWord(relStartOffset)
+		endBoundary := isWord(relEndOffset-1) != isWord(relEndOffset)
 		if startBoundary && endBoundary {
 			found = append(found, &candidateMatch{
 				byteOffset:  uint32(offset + idx),
